@@ -325,7 +325,7 @@ fn valid_response(rng: &mut Rng) -> Vec<u8> {
     let styles = respgen::random_styles(rng);
     let mut headers: Vec<(String, Vec<u8>)> = Vec::new();
     for _ in 0..rng.range(0, 6) {
-        headers.push((rng.pick(&["X-A", "Set-Cookie", "Content-Type", "Location", "Server", "Content-Encoding"]).to_string(), rng.pick(&[b"a=b".as_slice(), b"text/html; charset=utf-8", b"text/plain; charset=shift_jis", b"text/html;", b"text/plain; q=1", b"a;b", b"application/json; ", b";", b"/next", b"http://other.test/x", b"identity", b"x", b""]).to_vec()));
+        headers.push((rng.pick(&["X-A", "Set-Cookie", "Content-Type", "Location", "Server", "Content-Encoding"]).to_string(), rng.pick(&[b"a=b".as_slice(), b"text/html; charset=utf-8", b"text/plain; charset=shift_jis", b"text/html;", b"text/plain; q=1", b"a;b", b"application/json; ", b";", b"/next", b"http://other.test/x", b"identity", b"x", b"", "text/plain; x=\u{130}\u{130}\u{130}\u{130}\u{130}\u{130}; charset=utf-8".as_bytes(), "text/plain; x=\u{130}\u{130}\u{130}\u{130}\u{130}\u{130}\u{130}\u{130}\u{130}\u{130}\u{130}\u{130}; CHARSET=\u{212a}oi8-r".as_bytes(), "\u{1e9e}\u{1e9e}\u{1e9e}/\u{fb03}; charset=\u{fb01}".as_bytes(), b"text/plain; charset=\xff\xfe"]).to_vec()));
     }
     // (every three-digit code up to 999 is a status the `http` crate accepts; codes outside are refused: either way no panic)
     let status = *rng.pick(&["HTTP/1.1 200 OK", "HTTP/1.1 404 Not Found", "HTTP/1.1 302 Found", "HTTP/1.0 200 OK", "HTTP/1.1 500 Oops", "HTTP/1.1 600 Six", "HTTP/1.1 712 Unassigned", "HTTP/1.1 999 Max", "HTTP/1.1 099 Low", "HTTP/1.1 1000 High", "HTTP/1.1 000 Zero", "HTTP/1.1 65836 Wraps"]);
